@@ -55,6 +55,7 @@ OpRes ==
        [] E.op = "zremrank" -> LET r == IdxRange(n, E.a[1], E.a[2])
                                IN IF r[1] > r[2] THEN <<x, 0, TRUE>> ELSE Cut(x, x[1] + r[1] - 1, x[1] + r[2] - 1)
        [] E.op \in {"zremscore", "zremlex"} -> Cut(x, E.a[1], E.a[2])
+       [] E.op = "fix" -> <<x, -1, TRUE>>        \* repair command on a healthy collection: nothing changes (no reply value)
        [] E.op = "lpop" -> IF n = 0 THEN <<x, -1, TRUE>> ELSE <<Norm(<<x[1] + 1, x[2]>>), x[1], TRUE>>
        [] E.op = "rpop" -> IF n = 0 THEN <<x, -1, TRUE>> ELSE <<Norm(<<x[1], x[2] - 1>>), x[2], TRUE>>
 
